@@ -773,16 +773,26 @@ namespace ip {
 	{
 		int remote = m_channel->remote_idx(m_bound_to);
 		p.hops = m_channel->hops[remote];
+
+		// the packet is no longer in flight; it is accounted for again when
+		// it is re-sent
+		auto const sz = m_outstanding_packet_sizes.find(p.seq_nr);
+		if (sz != m_outstanding_packet_sizes.end())
+		{
+			m_bytes_in_flight -= sz->second;
+			m_outstanding_packet_sizes.erase(sz);
+		}
+		std::uint64_t const dropped_seq = p.seq_nr;
 		m_outgoing_packets.push_back(std::move(p));
 
 		const int packets_in_cwnd = m_cwnd / m_mss;
 
 		// we just recently dropped a packet and cut the cwnd in half,
 		// don't do it again already
-		if (m_last_drop_seq > 0 && p.seq_nr < m_last_drop_seq + packets_in_cwnd) return;
+		if (m_last_drop_seq > 0 && dropped_seq < m_last_drop_seq + packets_in_cwnd) return;
 
 		m_cwnd /= 2;
-		m_last_drop_seq = p.seq_nr;
+		m_last_drop_seq = dropped_seq;
 
 		// TODO: this should really happen one second later to be accurate
 		if (m_cwnd < m_mss) m_cwnd = m_mss;
